@@ -367,6 +367,7 @@ def c06(ctx):
             H.r_find_add(ctx, db, e, ln, consts, strict=False, bsearch="core")
         # find() is decided for sorted edges: both constructors must establish that invariant
         H.r_const_width_monotone(ctx, db, e, ln, consts)
+        H.r_accessors(ctx, db, e, ln, consts)     # range_min()/range_max() of the statement are the stored outer edges
         if ln <= 3:
             H.r_from_ranges(ctx, db, e, ln, consts)
     dba, hs = hist_const_types(ctx)
@@ -374,6 +375,7 @@ def c06(ctx):
         n += 1
         H.r_find_add(ctx, dba, e, ln, consts)
         H.r_const_width_monotone(ctx, dba, e, ln, consts)
+        H.r_accessors(ctx, dba, e, ln, consts)
     ctx.floor("histogram instantiations analysed (find/add)", n, 6)
     ctx.notes.append("decided for strictly increasing edges under the documented contract of [T]::binary_search_by; with repeated edges the bin "
                      "returned for a sample equal to the repeated edge depends on which equal index the standard library returns (unspecified): "
@@ -411,6 +413,8 @@ def c13(ctx):
         H.r_iter_views(ctx, db, e, ln, consts)
         H.r_iter_overrides(ctx, db, e, ln, consts)
         H.r_hist_clone(ctx, db, e, ln, consts)
+        if ln <= 10:
+            H.r_views_special_values(ctx, db, e, ln, consts)
     dba, hs = hist_const_types(ctx)
     for e, ln, consts in hs:
         n += 1
@@ -697,6 +701,9 @@ def c17(ctx):
         if kw.get("weighted"):
             # "contributing observation": a zero-weight observation must be invisible to the weighted mean
             N.r_zerow(ctx, db, e, ("mean", "weighted_mean", "sum_weights"))
+            # histories of adds include extend/collect: (sample, weight) must reach add in that order
+            import forward_rules as FW
+            FW.r_forward_ingest(ctx, db, e, state_assume=R.weights_assumer(db, e, False))
         if t.endswith("WeightedMeanWithError"):
             N.r_effective_len(ctx, db, e, scen)
     for t, N_ in moment_types(ctx, db):
